@@ -1,9 +1,9 @@
 #!/bin/bash
 # dev_lane.sh sync | try <seed-id> <check-id> [tier] | rm
 # A private lane for trying seeded changes while other checks run against /repo: a copy of /verif (without work/ and .git)
-# and a git worktree of /repo's HEAD under /tmp/lane2; the lane's harness depends on the lane's repo and VERIF_REPO points there.
+# and a git worktree of /repo's HEAD under /tmp/lane2 (or $LANE); the lane's harness depends on the lane's repo and VERIF_REPO points there.
 # Development aid only - no registered command uses it.
-L=/tmp/lane2
+L=${LANE:-/tmp/lane2}
 case "$1" in
  sync)
   mkdir -p $L
